@@ -27,6 +27,7 @@ import (
 	storageOutboxEntry "github.com/jdillenkofer/pithos/internal/storage/database/repository/storageoutboxentry"
 	"github.com/jdillenkofer/pithos/internal/storage/database/sqlite"
 	"github.com/jdillenkofer/pithos/internal/storage/metadatapart"
+	"github.com/jdillenkofer/pithos/internal/storage/metadatapart/metadatastore"
 	sqlMetadataStore "github.com/jdillenkofer/pithos/internal/storage/metadatapart/metadatastore/sql"
 	filesystemPartStore "github.com/jdillenkofer/pithos/internal/storage/metadatapart/partstore/filesystem"
 	"github.com/jdillenkofer/pithos/internal/storage/outbox"
@@ -277,6 +278,9 @@ type c21Op struct {
 	ifmatch string // "N", "*", or cid
 	vid     *string
 	vers    string
+	label   int    // multipart upload label
+	pn      int    // part number
+	db, dk  string // copy destination
 }
 
 func c21UntokOpt(t string) *string {
@@ -319,8 +323,42 @@ func c21ParseOp(t string) c21Op {
 	switch f[0] {
 	case "cb", "db", "ls", "hb", "gv":
 		op.b = untokBytes(f[1])
-	case "get":
+	case "get", "gtag", "dtag":
 		op.b, op.k = untokBytes(f[1]), untokBytes(f[2])
+	case "abt":
+		op.b, op.k = untokBytes(f[1]), untokBytes(f[2])
+		op.label, _ = strconv.Atoi(f[3])
+	case "app":
+		op.b, op.k = untokBytes(f[1]), untokBytes(f[2])
+		op.cid, _ = strconv.Atoi(f[3])
+	case "ptag":
+		op.b, op.k, op.tags = untokBytes(f[1]), untokBytes(f[2]), c21UntokKvs(f[3])
+	case "cp":
+		op.b, op.k, op.db, op.dk = untokBytes(f[1]), untokBytes(f[2]), untokBytes(f[3]), untokBytes(f[4])
+	case "up":
+		op.b, op.k = untokBytes(f[1]), untokBytes(f[2])
+		op.label, _ = strconv.Atoi(f[3])
+		op.pn, _ = strconv.Atoi(f[4])
+		op.cid, _ = strconv.Atoi(f[5])
+	case "cpl":
+		op.b, op.k = untokBytes(f[1]), untokBytes(f[2])
+		op.label, _ = strconv.Atoi(f[3])
+		op.ifnone = f[4] == "1"
+		op.ifmatch = f[5]
+	case "cmu":
+		op.b, op.k = untokBytes(f[1]), untokBytes(f[2])
+		op.label, _ = strconv.Atoi(f[3])
+		op.ctype, op.class = c21UntokOpt(f[4]), c21UntokOpt(f[5])
+		if f[6] != "N" {
+			m := strings.Split(f[6], ":")
+			op.hasMeta = true
+			for _, s := range strings.Split(m[1], ",") {
+				op.sys = append(op.sys, c21UntokOpt(s))
+			}
+			op.user = c21UntokKvs(m[2])
+		}
+		op.tags = c21UntokKvs(f[7])
+		op.ifmatch = "N"
 	case "dels":
 		op.b, op.keys = untokBytes(f[1]), untokList(f[2])
 	case "ver":
@@ -346,24 +384,31 @@ func c21ParseOp(t string) c21Op {
 	return op
 }
 
+// content of id c: "<c>" followed by c dashes — its length identifies c, concatenations parse uniquely
 func c21Content(cid int) []byte {
-	return bytes.Repeat([]byte(fmt.Sprintf("c21-content-%d|", cid)), cid%5+1)
+	return []byte("<" + strconv.Itoa(cid) + ">" + strings.Repeat("-", cid))
 }
 func c21ETag(cid int) string {
 	s := md5.Sum(c21Content(cid))
 	return "\"" + hex.EncodeToString(s[:]) + "\""
 }
-func c21CidOfContent(b []byte) int {
-	s := string(b)
-	i := strings.Index(s, "|")
-	if !strings.HasPrefix(s, "c21-content-") || i < 0 {
-		return 999999
+
+// the content ids of the parts an object's bytes consist of, "+"-joined ("BAD" if not ours)
+func c21CidsOfContent(b []byte) string {
+	var out []string
+	for len(b) > 0 {
+		i := bytes.IndexByte(b, '>')
+		if b[0] != '<' || i < 0 {
+			return "BAD"
+		}
+		n, err := strconv.Atoi(string(b[1:i]))
+		if err != nil || len(b) < i+1+n || !bytes.Equal(b[:i+1+n], c21Content(n)) {
+			return "BAD"
+		}
+		out = append(out, strconv.Itoa(n))
+		b = b[i+1+n:]
 	}
-	n, err := strconv.Atoi(s[len("c21-content-"):i])
-	if err != nil || !bytes.Equal(c21Content(n), b) {
-		return 999999
-	}
-	return n
+	return strings.Join(out, "+")
 }
 
 func c21Err(err error) string {
@@ -383,6 +428,8 @@ func c21Err(err error) string {
 		return "E:PreconditionFailed"
 	case errors.As(err, &dm):
 		return "E:DeleteMarker"
+	case errors.Is(err, metadatastore.ErrUploadWithInvalidSequenceNumber), errors.Is(err, storage.ErrInvalidPart):
+		return "E:InvalidPart"
 	case errors.Is(err, context.Canceled):
 		return "E:Canceled"
 	}
@@ -422,12 +469,12 @@ func c21PutOpts(op c21Op) *storage.PutObjectOptions {
 	return o
 }
 
-func c21ShowObj(o *storage.Object, cid int) string {
+func c21ShowObj(o *storage.Object, cid string) string {
 	tokO := func(p *string) string { return tokOpt(p) }
 	class := storage.EffectiveStorageClass(o.StorageClass)
 	m := o.Metadata
 	sys := []string{tokO(m.CacheControl), tokO(m.ContentDisposition), tokO(m.ContentEncoding), tokO(m.ContentLanguage), tokO(m.Expires), tokO(m.WebsiteRedirectLocation)}
-	return "O:" + strconv.Itoa(cid) + ":" + tokO(o.ContentType) + ":" + tokBytes(class) + ":" + strings.Join(sys, ",") + ":" + c21TokKvs(m.UserMetadata) + ":" + c21TokKvs(o.Tags)
+	return "O:" + cid + ":" + tokO(o.ContentType) + ":" + tokBytes(class) + ":" + strings.Join(sys, ",") + ":" + c21TokKvs(m.UserMetadata) + ":" + c21TokKvs(o.Tags)
 }
 
 func c21Get(ctx context.Context, st storage.Storage, b, k string) string {
@@ -440,12 +487,77 @@ func c21Get(ctx context.Context, st storage.Storage, b, k string) string {
 		io.Copy(&buf, r)
 		r.Close()
 	}
-	return c21ShowObj(o, c21CidOfContent(buf.Bytes()))
+	return c21ShowObj(o, c21CidsOfContent(buf.Bytes()))
 }
 
 // runs one client operation on a storage (the outbox storage, or the plain storage of the oracle)
-func c21Exec(ctx context.Context, st storage.Storage, op c21Op, etags map[string]int, ub []string) string {
+func c21MetaOpts(op c21Op) *storage.ObjectMetadata {
+	if !op.hasMeta {
+		return nil
+	}
+	m := &storage.ObjectMetadata{}
+	s := append([]*string{}, op.sys...)
+	for len(s) < 6 {
+		s = append(s, nil)
+	}
+	m.CacheControl, m.ContentDisposition, m.ContentEncoding, m.ContentLanguage, m.Expires, m.WebsiteRedirectLocation = s[0], s[1], s[2], s[3], s[4], s[5]
+	if len(op.user) > 0 {
+		m.UserMetadata = op.user
+	}
+	return m
+}
+
+// ups: multipart upload label -> the id this storage handed out
+func c21Exec(ctx context.Context, st storage.Storage, op c21Op, ups map[int]storage.UploadId, ub []string) string {
+	upload := func() storage.UploadId {
+		if id, ok := ups[op.label]; ok {
+			return id
+		}
+		return metadatastore.NewRandomUploadId() // never created here: an id the storage does not know
+	}
 	switch op.kind {
+	case "cmu":
+		o := &storage.CreateMultipartUploadOptions{StorageClass: op.class, Metadata: c21MetaOpts(op)}
+		if len(op.tags) > 0 {
+			o.Tags = op.tags
+		}
+		r, err := st.CreateMultipartUpload(ctx, storage.MustNewBucketName(op.b), storage.MustNewObjectKey(op.k), op.ctype, nil, o)
+		if err == nil {
+			ups[op.label] = r.UploadId
+		}
+		return c21Err(err)
+	case "up":
+		_, err := st.UploadPart(ctx, storage.MustNewBucketName(op.b), storage.MustNewObjectKey(op.k), upload(), int32(op.pn), bytes.NewReader(c21Content(op.cid)), nil)
+		return c21Err(err)
+	case "cpl":
+		o := &storage.CompleteMultipartUploadOptions{IfNoneMatchStar: op.ifnone, IfMatchETag: c21IfMatch(op.ifmatch)}
+		_, err := st.CompleteMultipartUpload(ctx, storage.MustNewBucketName(op.b), storage.MustNewObjectKey(op.k), upload(), nil, o)
+		if err == nil {
+			delete(ups, op.label)
+		}
+		return c21Err(err)
+	case "abt":
+		err := st.AbortMultipartUpload(ctx, storage.MustNewBucketName(op.b), storage.MustNewObjectKey(op.k), upload())
+		if err == nil {
+			delete(ups, op.label)
+		}
+		return c21Err(err)
+	case "cp":
+		_, err := st.CopyObject(ctx, storage.MustNewBucketName(op.b), storage.MustNewObjectKey(op.k), storage.MustNewBucketName(op.db), storage.MustNewObjectKey(op.dk), nil)
+		return c21Err(err)
+	case "app":
+		_, err := st.AppendObject(ctx, storage.MustNewBucketName(op.b), storage.MustNewObjectKey(op.k), bytes.NewReader(c21Content(op.cid)), nil, nil)
+		return c21Err(err)
+	case "ptag":
+		return c21Err(st.PutObjectTagging(ctx, storage.MustNewBucketName(op.b), storage.MustNewObjectKey(op.k), op.tags, nil))
+	case "dtag":
+		return c21Err(st.DeleteObjectTagging(ctx, storage.MustNewBucketName(op.b), storage.MustNewObjectKey(op.k), nil))
+	case "gtag":
+		t, err := st.GetObjectTagging(ctx, storage.MustNewBucketName(op.b), storage.MustNewObjectKey(op.k), nil)
+		if err != nil {
+			return c21Err(err)
+		}
+		return "T:" + c21TokKvs(t)
 	case "cb":
 		return c21Err(st.CreateBucket(ctx, storage.MustNewBucketName(op.b)))
 	case "db":
@@ -482,11 +594,7 @@ func c21Exec(ctx context.Context, st storage.Storage, op c21Op, etags map[string
 		}
 		var out []string
 		for _, o := range r.Objects {
-			cid, ok := etags[o.ETag]
-			if !ok {
-				cid = 999999
-			}
-			out = append(out, tokBytes(o.Key.String())+"="+strconv.Itoa(cid))
+			out = append(out, tokBytes(o.Key.String())+"="+strconv.FormatInt(o.Size, 10))
 		}
 		if len(out) == 0 {
 			return "L:_"
@@ -538,6 +646,11 @@ func c21Sweep(ctx context.Context, st storage.Storage, ub, uk []string) []string
 			continue
 		}
 		s := "S|" + tokBytes(b) + "|" + c21Vers(c)
+		if lm, err := st.ListMultipartUploads(ctx, bn, storage.ListMultipartUploadsOptions{MaxUploads: 1000}); err == nil {
+			s += "|u" + strconv.Itoa(len(lm.Uploads))
+		} else {
+			s += "|uERR"
+		}
 		for _, k := range uk {
 			kk := k
 			r, err := st.ListObjectVersions(ctx, bn, storage.ListObjectVersionsOptions{Prefix: &kk, MaxKeys: 1000})
@@ -581,16 +694,21 @@ type c21ShKey struct {
 	cid      int
 	nonempty bool
 }
+type c21ShUpload struct {
+	key   string
+	parts map[int]bool
+}
 type c21ShBucket struct {
 	exists bool
 	vers   byte
 	keys   map[string]*c21ShKey
+	ups    map[int]*c21ShUpload
 }
 type c21ShState map[string]*c21ShBucket
 
 func (s c21ShState) bucket(b string) *c21ShBucket {
 	if s[b] == nil {
-		s[b] = &c21ShBucket{vers: 'U', keys: map[string]*c21ShKey{}}
+		s[b] = &c21ShBucket{vers: 'U', keys: map[string]*c21ShKey{}, ups: map[int]*c21ShUpload{}}
 	}
 	return s[b]
 }
@@ -601,6 +719,9 @@ func (b *c21ShBucket) key(k string) *c21ShKey {
 	return b.keys[k]
 }
 func (b *c21ShBucket) empty() bool {
+	if len(b.ups) > 0 {
+		return false
+	}
 	for _, k := range b.keys {
 		if k.nonempty {
 			return false
@@ -631,13 +752,13 @@ func (s c21ShState) apply(op c21Op) bool {
 		if b.exists {
 			return false
 		}
-		*b = c21ShBucket{exists: true, vers: 'U', keys: map[string]*c21ShKey{}}
+		*b = c21ShBucket{exists: true, vers: 'U', keys: map[string]*c21ShKey{}, ups: map[int]*c21ShUpload{}}
 		return true
 	case "db":
 		if !b.exists || !b.empty() {
 			return false
 		}
-		*b = c21ShBucket{vers: 'U', keys: map[string]*c21ShKey{}}
+		*b = c21ShBucket{vers: 'U', keys: map[string]*c21ShKey{}, ups: map[int]*c21ShUpload{}}
 		return true
 	case "put":
 		if !b.exists {
@@ -679,6 +800,76 @@ func (s c21ShState) apply(op c21Op) bool {
 		}
 		b.vers = op.vers[0]
 		return true
+	case "cmu":
+		if !b.exists {
+			return false
+		}
+		b.ups[op.label] = &c21ShUpload{key: op.k, parts: map[int]bool{}}
+		return true
+	case "up":
+		u := b.ups[op.label]
+		if !b.exists || u == nil || u.key != op.k {
+			return false
+		}
+		u.parts[op.pn] = true
+		return true
+	case "abt":
+		u := b.ups[op.label]
+		if !b.exists || u == nil || u.key != op.k {
+			return false
+		}
+		delete(b.ups, op.label)
+		return true
+	case "cpl":
+		u := b.ups[op.label]
+		if !b.exists || u == nil || u.key != op.k {
+			return false
+		}
+		for i := 1; i <= len(u.parts); i++ {
+			if !u.parts[i] {
+				return false
+			}
+		}
+		k := b.key(op.k)
+		if !condOK(k, op.ifmatch) || (op.ifnone && k.cur) {
+			return false
+		}
+		k.cur, k.cid, k.nonempty = true, -1, true
+		delete(b.ups, op.label)
+		return true
+	case "app":
+		if !b.exists {
+			return false
+		}
+		k := b.key(op.k)
+		k.cur, k.cid, k.nonempty = true, -1, true
+		return true
+	case "cp":
+		if !b.exists || !b.key(op.k).cur {
+			return false
+		}
+		d := s.bucket(op.db)
+		if !d.exists {
+			return false
+		}
+		src := b.key(op.k).cid
+		k := d.key(op.dk)
+		k.cur, k.cid, k.nonempty = true, src, true
+		return true
+	}
+	return true
+}
+
+// can the shadow vouch for a complete of this upload succeeding part-wise
+func (s c21ShState) uploadReady(b string, label int) bool {
+	u := s.bucket(b).ups[label]
+	if u == nil {
+		return false
+	}
+	for i := 1; i <= len(u.parts); i++ {
+		if !u.parts[i] {
+			return false
+		}
 	}
 	return true
 }
@@ -699,6 +890,8 @@ type c21Shadow struct {
 	blockedN   int
 	syncW      int
 	queuedN    int
+	mp, other  bool
+	wtBlocked  int // write-through operations that had to wait
 }
 type c21ShFlight struct {
 	op    c21Op
@@ -711,6 +904,9 @@ func c21NewShadow() *c21Shadow {
 }
 func c21Conflict(class [3]string, e c21ShEntry) bool {
 	switch class[0] {
+	case "two":
+		a, b := strings.SplitN(class[1], "\x00", 2), strings.SplitN(class[2], "\x00", 2)
+		return c21Conflict([3]string{"key", a[0], a[1]}, e) || c21Conflict([3]string{"key", b[0], b[1]}, e)
 	case "key":
 		return e.b == class[1] && (e.k == "" || e.k == class[2])
 	case "bucket":
@@ -745,8 +941,10 @@ func (s *c21Shadow) route(op c21Op) *[3]string {
 		return nil
 	case "ver", "ls":
 		return &[3]string{"bucket", op.b, ""}
-	case "get":
+	case "get", "gtag", "ptag", "dtag", "cmu", "up", "cpl", "abt", "app":
 		return &[3]string{"key", op.b, op.k}
+	case "cp":
+		return &[3]string{"two", op.b + "\x00" + op.k, op.db + "\x00" + op.dk}
 	case "hb", "gv":
 		return &[3]string{"globalb", op.b, ""}
 	case "lb":
@@ -775,10 +973,16 @@ func (s *c21Shadow) joinable() bool {
 }
 func (s *c21Shadow) perform(op c21Op) {
 	switch op.kind {
-	case "put", "del", "dels", "ver":
+	case "put", "del", "dels", "ver", "cmu", "up", "cpl", "abt", "app", "cp", "ptag", "dtag":
 		s.inner.apply(op)
 		s.seq.apply(op)
 		s.syncW++
+		switch op.kind {
+		case "cmu", "up", "cpl", "abt":
+			s.mp = true
+		case "app", "cp", "ptag", "dtag":
+			s.other = true
+		}
 	}
 }
 
@@ -839,6 +1043,11 @@ func (s *c21Shadow) step(op c21Op) bool {
 	}
 	s.fl = &c21ShFlight{op: op, class: *class, snap: last}
 	s.blockedN++
+	switch op.kind {
+	case "get", "ls", "lb", "hb", "gv", "gtag":
+	default:
+		s.wtBlocked++
+	}
 	return true
 }
 
@@ -854,8 +1063,34 @@ func c21ShowOp(op c21Op) string {
 		return op.kind
 	case "cb", "db", "ls", "hb", "gv":
 		return op.kind + "/" + tokBytes(op.b)
-	case "get":
-		return "get/" + tokBytes(op.b) + "/" + tokBytes(op.k)
+	case "get", "gtag", "dtag":
+		return op.kind + "/" + tokBytes(op.b) + "/" + tokBytes(op.k)
+	case "abt":
+		return "abt/" + tokBytes(op.b) + "/" + tokBytes(op.k) + "/" + strconv.Itoa(op.label)
+	case "app":
+		return "app/" + tokBytes(op.b) + "/" + tokBytes(op.k) + "/" + strconv.Itoa(op.cid)
+	case "ptag":
+		return "ptag/" + tokBytes(op.b) + "/" + tokBytes(op.k) + "/" + c21TokKvs(op.tags)
+	case "cp":
+		return "cp/" + tokBytes(op.b) + "/" + tokBytes(op.k) + "/" + tokBytes(op.db) + "/" + tokBytes(op.dk)
+	case "up":
+		return strings.Join([]string{"up", tokBytes(op.b), tokBytes(op.k), strconv.Itoa(op.label), strconv.Itoa(op.pn), strconv.Itoa(op.cid)}, "/")
+	case "cpl":
+		ifn := "0"
+		if op.ifnone {
+			ifn = "1"
+		}
+		return strings.Join([]string{"cpl", tokBytes(op.b), tokBytes(op.k), strconv.Itoa(op.label), ifn, op.ifmatch}, "/")
+	case "cmu":
+		meta := "N"
+		if op.hasMeta {
+			sys := make([]string, len(op.sys))
+			for i, s := range op.sys {
+				sys[i] = tokOpt(s)
+			}
+			meta = "M:" + strings.Join(sys, ",") + ":" + c21TokKvs(op.user)
+		}
+		return strings.Join([]string{"cmu", tokBytes(op.b), tokBytes(op.k), strconv.Itoa(op.label), tokOpt(op.ctype), tokOpt(op.class), meta, c21TokKvs(op.tags)}, "/")
 	case "dels":
 		return "dels/" + tokBytes(op.b) + "/" + tokList(op.keys)
 	case "ver":
@@ -922,18 +1157,205 @@ func (c21) Gen(r *Rng, tier string, n int) []string {
 	return cases
 }
 
+// A write-through operation arrives while an acknowledged write it depends on (same key, a
+// bucket-lifecycle entry, or the copy's other side) is still queued behind the gated worker.
+func c21GenDirected(r *Rng) string {
+	sh := c21NewShadow()
+	var ops []c21Op
+	emit := func(op c21Op) { ops = append(ops, op); sh.step(op) }
+	drain := func() {
+		for g := 0; g < 40 && len(sh.queue) > 0 && !sh.poisoned; g++ {
+			emit(c21Op{kind: "W"})
+		}
+	}
+	settle := func() {
+		for g := 0; g < 40 && sh.fl != nil && !sh.poisoned; g++ {
+			if sh.joinable() {
+				emit(c21Op{kind: "J"})
+			} else {
+				emit(c21Op{kind: "W"})
+			}
+		}
+	}
+	ub := c21Buckets
+	uk := c21Keys[:2+r.Intn(2)]
+	b, b2 := ub[0], ub[1]
+	k := r.Pick(uk)
+	k2 := uk[(r.Intn(len(uk)-1)+1+c21IndexOf(uk, k))%len(uk)]
+	cid, label := 1, 1
+	emit(c21Op{kind: "cb", b: b})
+	b2exists := r.Chance(50)
+	if b2exists {
+		emit(c21Op{kind: "cb", b: b2})
+	}
+	drain()
+	// optional drained history of the key
+	if r.Chance(55) {
+		emit(c21GenPut(r, b, k, cid))
+		cid++
+		drain()
+	}
+	if r.Chance(30) {
+		emit(c21GenPut(r, b, k2, cid))
+		cid++
+		drain()
+	}
+	// an upload for the key (needed by up / cpl / abt)
+	upLabel := 0
+	if r.Chance(65) {
+		op := c21GenPut(r, b, k, 0)
+		op.kind, op.cid, op.label = "cmu", 0, label
+		upLabel = label
+		label++
+		emit(op)
+		for pn := 1; pn <= r.Intn(3); pn++ {
+			emit(c21Op{kind: "up", b: b, k: k, label: upLabel, pn: pn, cid: cid})
+			cid++
+		}
+	}
+	// acknowledged writes that stay queued (worker gated)
+	if r.Chance(25) {
+		emit(c21GenPut(r, b, k2, cid)) // an unrelated key ahead in the queue
+		cid++
+	}
+	wtBucket, wtKey := b, k
+	switch x := r.Intn(100); {
+	case x < 50:
+		emit(c21GenPut(r, b, k, cid))
+		cid++
+	case x < 75:
+		emit(c21Op{kind: "del", b: b, k: k, ifmatch: "N"})
+	case x < 88 && !b2exists:
+		emit(c21Op{kind: "cb", b: b2}) // a bucket-lifecycle entry of the bucket the operation addresses
+		wtBucket = b2
+	default:
+		emit(c21GenPut(r, b, k, cid))
+		cid++
+		emit(c21Op{kind: "del", b: b, k: k, ifmatch: "N"})
+	}
+	if r.Chance(15) {
+		emit(c21Op{kind: "W"}) // partially drained
+	}
+	// the write-through operation
+	var op c21Op
+	cond := func(o *c21Op) {
+		switch r.Intn(4) {
+		case 0, 1:
+			o.ifnone = true
+		case 2:
+			o.ifmatch = "*"
+		default:
+			o.ifmatch = strconv.Itoa(1 + r.Intn(cid))
+		}
+	}
+	for tries := 0; tries < 20 && op.kind == ""; tries++ {
+		switch y := r.Intn(100); {
+		case y < 26:
+			if upLabel == 0 || wtBucket != b {
+				continue
+			}
+			op = c21Op{kind: "cpl", b: b, k: k, label: upLabel, ifmatch: "N"}
+			if r.Chance(75) {
+				cond(&op)
+			}
+		case y < 34:
+			if upLabel == 0 || wtBucket != b {
+				continue
+			}
+			op = c21Op{kind: "up", b: b, k: k, label: upLabel, pn: 1 + r.Intn(2), cid: cid}
+			cid++
+		case y < 38:
+			if upLabel == 0 || wtBucket != b {
+				continue
+			}
+			op = c21Op{kind: "abt", b: b, k: k, label: upLabel}
+		case y < 46:
+			op = c21GenPut(r, wtBucket, wtKey, 0)
+			op.kind, op.cid, op.label = "cmu", 0, label
+			label++
+		case y < 56:
+			op = c21GenPut(r, wtBucket, wtKey, cid)
+			cid++
+			cond(&op)
+		case y < 63:
+			op = c21Op{kind: "del", b: wtBucket, k: wtKey, ifmatch: r.Pick([]string{"*", strconv.Itoa(1 + r.Intn(cid))})}
+		case y < 72:
+			op = c21Op{kind: "app", b: wtBucket, k: wtKey, cid: cid}
+			cid++
+		case y < 80: // copy out of the key
+			db := b
+			if b2exists && r.Bool() {
+				db = b2
+			}
+			op = c21Op{kind: "cp", b: wtBucket, k: wtKey, db: db, dk: k2}
+		case y < 88: // copy into the key
+			op = c21Op{kind: "cp", b: b, k: k2, db: wtBucket, dk: wtKey}
+		case y < 93:
+			op = c21Op{kind: "ptag", b: wtBucket, k: wtKey, tags: map[string]string{"t1": r.Pick([]string{"a", "b"})}}
+		case y < 96:
+			op = c21Op{kind: "dtag", b: wtBucket, k: wtKey}
+		case y < 98:
+			op = c21Op{kind: "gtag", b: wtBucket, k: wtKey}
+		default:
+			op = c21Op{kind: "ver", b: wtBucket, vers: r.Pick([]string{"E", "S"})}
+		}
+	}
+	if op.kind == "" {
+		op = c21Op{kind: "app", b: wtBucket, k: wtKey, cid: cid}
+		cid++
+	}
+	emit(op)
+	settle()
+	emit(c21Op{kind: "get", b: wtBucket, k: wtKey})
+	settle()
+	if r.Chance(50) {
+		emit(c21Op{kind: "gtag", b: wtBucket, k: wtKey})
+		settle()
+	}
+	drain()
+	if !sh.poisoned {
+		emit(c21Op{kind: "ls", b: b})
+		emit(c21Op{kind: "get", b: wtBucket, k: wtKey})
+		if op.kind == "cp" {
+			emit(c21Op{kind: "get", b: op.db, k: op.dk})
+		}
+	}
+	toks := make([]string, len(ops))
+	for i, o := range ops {
+		toks[i] = c21ShowOp(o)
+	}
+	return tokList(ub) + " " + tokList(uk) + " " + strings.Join(toks, " ")
+}
+
+func c21IndexOf(l []string, x string) int {
+	for i, y := range l {
+		if y == x {
+			return i
+		}
+	}
+	return 0
+}
+
 func c21GenCase(r *Rng) string {
+	if r.Chance(35) {
+		return c21GenDirected(r)
+	}
 	sh := c21NewShadow()
 	var ops []c21Op
 	emit := func(op c21Op) { ops = append(ops, op); sh.step(op) }
 	nb := 1 + r.Intn(2)
 	ub := c21Buckets[:nb]
 	uk := c21Keys[:2+r.Intn(2)]
-	steps := 5 + r.Intn(12)
+	steps := 6 + r.Intn(16)
 	allowPoison := r.Chance(10)
 	allowConc := r.Chance(15)
 	blockedBudget := 1 + r.Intn(2)
 	cid := 1
+	label := 1
+	wtShare := 0
+	if r.Chance(60) {
+		wtShare = 20 + r.Intn(35)
+	}
 	afterPoison := 0
 	if r.Chance(90) {
 		emit(c21Op{kind: "cb", b: ub[0]})
@@ -959,7 +1381,7 @@ func c21GenCase(r *Rng) string {
 			if sh.poisoned {
 				break
 			}
-			if allowConc && sh.fl.op.kind != "put" && sh.fl.op.kind != "del" && sh.fl.op.kind != "dels" && sh.fl.op.kind != "ver" && r.Chance(40) {
+			if k := sh.fl.op.kind; allowConc && (k == "get" || k == "ls" || k == "lb" || k == "hb" || k == "gv" || k == "gtag") && r.Chance(40) {
 				// another client enqueues while a read waits
 				b := r.Pick(ub)
 				k := r.Pick(uk)
@@ -982,6 +1404,86 @@ func c21GenCase(r *Rng) string {
 		k := r.Pick(uk)
 		sb := sh.seq.bucket(b)
 		x := r.Intn(100)
+		if sb.exists && r.Chance(wtShare) {
+			// write-through operations other than put/delete; they may find entries of their key,
+			// of other keys or bucket-lifecycle entries still queued
+			var op c21Op
+			type openUp struct {
+				label int
+				key   string
+			}
+			var open []openUp
+			for l, u := range sb.ups {
+				open = append(open, openUp{l, u.key})
+			}
+			sort.Slice(open, func(i, j int) bool { return open[i].label < open[j].label })
+			y := r.Intn(100)
+			switch {
+			case y < 22 || len(open) == 0 && y < 45:
+				op = c21GenPut(r, b, k, 0)
+				op.kind, op.cid, op.label = "cmu", 0, label
+				label++
+			case y < 45:
+				u := open[r.Intn(len(open))]
+				pn := len(sb.ups[u.label].parts) + 1
+				if r.Chance(15) && pn > 1 {
+					pn = 1 + r.Intn(pn-1) // re-upload a part
+				}
+				op = c21Op{kind: "up", b: b, k: u.key, label: u.label, pn: pn, cid: cid}
+				cid++
+			case y < 65:
+				if len(open) == 0 {
+					continue
+				}
+				u := open[r.Intn(len(open))]
+				if !sh.seq.uploadReady(b, u.label) && !r.Chance(5) {
+					op = c21Op{kind: "up", b: b, k: u.key, label: u.label, pn: len(sb.ups[u.label].parts) + 1, cid: cid}
+					cid++
+					break
+				}
+				op = c21Op{kind: "cpl", b: b, k: u.key, label: u.label, ifmatch: "N"}
+				if sb.vers != 'S' && r.Chance(45) {
+					switch r.Intn(3) {
+					case 0, 1:
+						op.ifnone = true
+					default:
+						op.ifmatch = r.Pick([]string{"*", strconv.Itoa(1 + r.Intn(cid))})
+					}
+				}
+			case y < 69:
+				if len(open) == 0 {
+					continue
+				}
+				u := open[r.Intn(len(open))]
+				op = c21Op{kind: "abt", b: b, k: u.key, label: u.label}
+			case y < 82:
+				db := r.Pick(ub)
+				op = c21Op{kind: "cp", b: b, k: k, db: db, dk: r.Pick(uk)}
+				if !sh.seq.bucket(db).exists && !r.Chance(10) {
+					continue
+				}
+			case y < 90:
+				if sb.vers != 'U' {
+					continue
+				}
+				op = c21Op{kind: "app", b: b, k: k, cid: cid}
+				cid++
+			case y < 94:
+				op = c21Op{kind: "ptag", b: b, k: k, tags: map[string]string{r.Pick([]string{"t1", "t2"}): r.Pick([]string{"a", "b"})}}
+			case y < 96:
+				op = c21Op{kind: "dtag", b: b, k: k}
+			default:
+				op = c21Op{kind: "gtag", b: b, k: k}
+			}
+			if _, last := sh.pendingConf(*sh.route(op)); last >= 0 && blockedBudget <= 0 {
+				continue
+			}
+			emit(op)
+			if sh.fl != nil {
+				blockedBudget--
+			}
+			continue
+		}
 		switch {
 		case x < 22 && len(sh.queue) > 0 && !sh.poisoned:
 			emit(c21Op{kind: "W"})
@@ -1108,12 +1610,9 @@ func (c21) Run(in string, scratch string) Result {
 	f := strings.Fields(in)
 	ub, uk := untokList(f[0]), untokList(f[1])
 	ops := make([]c21Op, len(f)-2)
-	etags := map[string]int{}
+	ups := map[int]storage.UploadId{}
 	for i, t := range f[2:] {
 		ops[i] = c21ParseOp(t)
-		if ops[i].kind == "put" {
-			etags[c21ETag(ops[i].cid)] = ops[i].cid
-		}
 	}
 	// tags from the input alone
 	sh := c21NewShadow()
@@ -1138,6 +1637,15 @@ func (c21) Run(in string, scratch string) Result {
 	}
 	if sh.syncW > 0 {
 		tags = append(tags, "write-through")
+	}
+	if sh.wtBlocked > 0 {
+		tags = append(tags, "write-through-waited")
+	}
+	if sh.mp {
+		tags = append(tags, "multipart")
+	}
+	if sh.other {
+		tags = append(tags, "copy-append-tagging")
 	}
 	if versioned {
 		tags = append(tags, "versioning")
@@ -1276,7 +1784,7 @@ func (c21) Run(in string, scratch string) Result {
 			wg.Add(1)
 			go func(op c21Op) {
 				defer wg.Done()
-				done <- c21Exec(ctx, ob, op, etags, ub)
+				done <- c21Exec(ctx, ob, op, ups, ub)
 			}(op)
 			select {
 			case r := <-done:
@@ -1312,11 +1820,12 @@ func (c21) Run(in string, scratch string) Result {
 	out := strings.Join(outs, " ") + " # " + strings.Join(append(sweep, "Q"+strconv.Itoa(pending)), " ")
 
 	// ---- direct oracle: the client operations, in acceptance/completion order, on a plain storage
-	oracle := c21Oracle(scratch, filepath.Join(scratch, "direct"), ops, outs, sweep, pending, workerErr, sh.conc, etags, ub, uk)
+	oracle := c21Oracle(scratch, filepath.Join(scratch, "direct"), ops, outs, sweep, pending, workerErr, sh.conc, ub, uk)
 	return Result{Out: out, Oracle: oracle, Tags: tags}
 }
 
-func c21Oracle(scratch, dir string, ops []c21Op, outs []string, sweep []string, pending int, workerErr string, conc bool, etags map[string]int, ub, uk []string) string {
+func c21Oracle(scratch, dir string, ops []c21Op, outs []string, sweep []string, pending int, workerErr string, conc bool, ub, uk []string) string {
+	ups := map[int]storage.UploadId{}
 	if workerErr != "" {
 		return "FAIL:an accepted write failed on replay (" + workerErr + "): the entry stays at the head of the outbox, nothing behind it is replayed and waiting operations never return"
 	}
@@ -1330,7 +1839,7 @@ func c21Oracle(scratch, dir string, ops []c21Op, outs []string, sweep []string, 
 		return "FAIL:setup " + err.Error()
 	}
 	defer st.Stop(ctx)
-	isRead := func(k string) bool { return k == "get" || k == "ls" || k == "lb" || k == "hb" || k == "gv" }
+	isRead := func(k string) bool { return k == "get" || k == "ls" || k == "lb" || k == "hb" || k == "gv" || k == "gtag" }
 	var waiting *c21Op
 	for i, op := range ops {
 		switch op.kind {
@@ -1340,7 +1849,7 @@ func c21Oracle(scratch, dir string, ops []c21Op, outs []string, sweep []string, 
 			if waiting == nil || outs[i] == "BLK" || outs[i] == "NONE" {
 				continue
 			}
-			want := c21Exec(ctx, st, *waiting, etags, ub)
+			want := c21Exec(ctx, st, *waiting, ups, ub)
 			if !(conc && isRead(waiting.kind)) && want != outs[i] {
 				return fmt.Sprintf("FAIL:op %d (%s, completed after waiting) returned %s, the same history applied directly gives %s", i, waiting.kind, outs[i], want)
 			}
@@ -1354,7 +1863,7 @@ func c21Oracle(scratch, dir string, ops []c21Op, outs []string, sweep []string, 
 				waiting = &o
 				continue
 			}
-			want := c21Exec(ctx, st, op, etags, ub)
+			want := c21Exec(ctx, st, op, ups, ub)
 			queuedKind := op.kind == "cb" || op.kind == "db" || op.kind == "put" || op.kind == "del" || op.kind == "dels"
 			if queuedKind && outs[i] == "OK" {
 				// accepted into the outbox (or written through successfully): nothing to compare yet
